@@ -309,6 +309,10 @@ func parseGroupName(prefix string, p string) string {
 		return ""
 	}
 
+	if strings.ContainsRune(name, '\\') {
+		return ""
+	}
+
 	if filepath.Separator != '/' &&
 		strings.ContainsRune(name, filepath.Separator) {
 		return ""
